@@ -449,9 +449,7 @@ def run(ctx: Context):
                         for st in lp.body for c in ast.walk(st))]
         r.require(bool(loops), fn, fn.loc(), "_failed has no loop over self.use_trackers calling tracker.abort()")
         r.site(fn, None, "_failed")
-        rz = cfg.find(is_raise)
-        if not rz:
-            raise AnchorVanished("_failed no longer raises")
+        r.require(bool(cfg.find(is_raise)), fn, fn.loc(), "_failed no longer raises UploadUnhappinessError")
         for w in reaches_exit_avoiding(cfg, lambda n: False):
             r.violation(fn, fn.loc(), "_failed can return normally: get_shareholders would then report no "
                         "UploadUnhappinessError (path: %s)" % w.brief(), w)
